@@ -51,6 +51,9 @@ pub mod verif {
 
     #[cfg(feature = "sync")]
     pub use crate::sync_discovery::verif_add_response_to_resources;
+
+    #[cfg(feature = "async-tokio")]
+    pub use crate::async_discovery::verif_add_response_to_resources as verif_add_response_to_resources_async;
 }
 
 pub(crate) fn build_reply<'b>(
